@@ -249,7 +249,11 @@ func (p *parser) parseExpression(rbp int) Node {
 	}
 
 	t := p.token
-	p.advance(false)
+	// A token that only opens an operand is followed by another
+	// operand (where a regex may start); any other first token
+	// is a complete operand.
+	p.advance(t.Type == typeParenOpen || t.Type == typeBracketOpen ||
+		t.Type == typeBraceOpen || t.Type == typeMinus || t.Type == typePipe)
 
 	nud := p.lookupNud(t.Type)
 	if nud == nil {
